@@ -24,8 +24,11 @@ FAULTS = {
     'undefined-label': ['beq x8, x0, NOWHERE', 'jal x0, NOWHERE', 'j NOWHERE', 'call NOWHERE\nalign 4', 'tail NOWHERE\nalign 4', 'dw NOWHERE', 'addi x8, x8, %offset(NOWHERE)',
                         'li x8, %position(NOWHERE, 0)\nalign 4', 'pack <I %position(NOWHERE, 4)', 'bnez x9, NOWHERE', 'c.j %offset(NOWHERE)\nc.nop'],
     'undefined-constant': ['addi x8, x8, UNDEF + 1', 'dw UNDEF * 2', 'XX = UNDEF + 1', 'lui x8, %hi(UNDEF)', 'li x8, UNDEF\nalign 4', 'lw x8, x8, UNDEF'],
-    'malformed-expression': ['addi x8, x8, 1 +', 'dw (1', 'YY = 1 +', 'addi x8, x8, 1 2', 'dw 3 3', 'addi x8, x8, ))', 'dw 0x', 'addi x8, x8, 08'],
-    'non-integer': ['addi x8, x8, 1.5', 'dw 2 / 1', 'ZZ = 1.5', 'addi x8, x8, "a"', 'dw 1e3'],
+    'malformed-expression': ['addi x8, x8, 1 +', 'dw (1', 'YY = 1 +', 'addi x8, x8, 1 2', 'dw 3 3', 'addi x8, x8, ))', 'dw 0x', 'addi x8, x8, 08',
+                             # expressions whose evaluation raises every family of Python exception
+                             'addi x8, x8, [7][1]', 'dw {}[0]', 'addi x8, x8, "ab"[5]', 'dw (1).foo', 'dw 1 << -1', 'dw 1 // 0', 'addi x8, x8, 7 % 0', 'dw abs(1)', 'dw -',
+                             'WW = [7][1]', 'dw 1 if', 'li x8, {}[0]\nalign 4', 'lui x8, %hi([1][2])', 'dw int'],
+    'non-integer': ['addi x8, x8, 1.5', 'dw 2 / 1', 'ZZ = 1.5', 'addi x8, x8, "a"', 'dw 1e3', 'dw None', 'dw ()', 'dw [1]', 'dw "a" * 2', 'addi x8, x8, 1 < 2', 'dw 2 ** -1', 'dw lambda: 1'],
     'error-directive': ['error boom', '  error this board is not supported # really'],
     'missing-include': ['include nothere.asm', 'include "sub/nothere.asm"'],
     'missing-include-bytes': ['include_bytes nothere.bin'],
